@@ -27,6 +27,7 @@ class U:
         self.all_names = []
         self.default_ok = set()   # types implementing Default
         self.helpers = []
+        self.untagged_tuples = None
 
     def chance(self, p):
         return self.r.random() < p
@@ -145,6 +146,10 @@ class U:
             cont.append("deny_unknown_fields")
         nv = r.randrange(1, 5)
         vnames = r.sample(VARIANT_NAMES, nv)
+        self.untagged_tuples = None
+        if tagging == "untagged" and self.chance(0.4):
+            self.untagged_tuples = r.sample(["(u8, u8, u8)", "(u8, bool)", "(i32, u8, u8, bool)"], 2)
+            r.shuffle(vnames)
         variants = []
         struct_like = [n for n in self.names if n in self.struct_names]
         for i, vn in enumerate(vnames):
@@ -155,6 +160,9 @@ class U:
             if tagging == "untagged":
                 # keep variants distinguishable by JSON type so that the origin type round-trips
                 kinds = ["String", "i64", "bool", "Vec<String>"]
+                if self.untagged_tuples:
+                    # tuple variants of different arity (told apart by their length), in either order
+                    kinds = ["String", "bool"] + self.untagged_tuples
                 if struct_like:
                     kinds.append(r.choice(struct_like))
                 if i < len(kinds):
